@@ -833,7 +833,7 @@ theorem addObstacleOn_fst (s : St) (r : Role) (k : Nat) (on refs : List Nat) :
 theorem addObstacleOn_snd (s : St) (r : Role) (k : Nat) (on refs : List Nat) :
     (addObj s (.obstacleOn r k on) refs).2 =
       if k ∈ s.idSet then .err .value
-      else if s.net.lanelets.isEmpty ∨ ∀ x ∈ on, x ∈ lids s.net then .ok else .err .attr := by
+      else if r.onLanelets = false ∨ s.net.lanelets.isEmpty ∨ ∀ x ∈ on, x ∈ lids s.net then .ok else .err .attr := by
   show (addObstacleOn s r k on).2 = _
   unfold addObstacleOn
   rw [mark_eq]
